@@ -3,7 +3,7 @@
 import json, os
 VERIF = os.path.dirname(os.path.dirname(os.path.abspath(__file__)))
 HOOK_COMMITS = ["2a964bf", "fa83b6a"]
-FIX_COMMITS = ["856f863", "44eea87", "8d8cd8f", "c6ea88a", "2faf33b", "0d420de"]
+FIX_COMMITS = ["856f863", "44eea87", "8d8cd8f", "c6ea88a", "2faf33b", "0d420de", "4332f80"]
 
 CLAIMS = {
  "C16": dict(
@@ -34,6 +34,10 @@ CLAIMS = {
   text="Coq theorems for every request record: the model of ValidateSNI's handle() satisfies the C20 monitor (forwarded only if the named host equals the SNI case-insensitively with port/userinfo ignored, then marked validated; rejected on mismatch or missing SNI; equal host never rejected; HTTP/2 falls back to Host), plus port-insensitivity of the host extraction and that the comparison is an equivalence. Tied to the real public ValidateSNI layer around a recording service over version x Host x URI x TLS-info products; the model's host extraction is compared with http::uri::Authority::host on every case.",
   note="Trusted: Coq kernel+VM; hand model of sni.rs handle(); oracle O7 (which strings parse as an Authority); that TlsConnectionInfo carries the handshake's real SNI is info/tls + rustls (R3). Genuine defect D11 fixed (0d420de). No axioms.",
   technique="Coq proof (case analysis, string lemmas) + differential correspondence", ref="DESIGN.md 4/C20, 3.7"),
+ "C12": dict(
+  text="Coq theorems for every scheme string, host form, certificate situation, ALPN offer and injected fault: the model of TlsTransport/TlsTransportWrapper/TlsConnectionFuture satisfies the C12 monitor (https/wss with TLS configured: never a plain stream, a stream only after a successful handshake with SNI = URI host (none for IP literals), failures are errors never a fallback, nothing the application writes is visible in the clear; other schemes unwrapped; total). Tied to the real TlsTransport<DuplexTransport> against a recording peer running a real rustls server with matching / wrong-name / untrusted certificates and peer faults.",
+  note="Trusted: Coq kernel+VM; hand model; oracle O6/R3: rustls (name classification taken from the real crate by the harness; that a completed handshake implies encryption + verified certificate is rustls's own guarantee); fixtures minted with openssl. Genuine defects D9, D12 fixed (4332f80, c6ea88a). No axioms.",
+  technique="Coq proof (case analysis over the connect state machine, monitor = spec) + differential correspondence with a real TLS peer", ref="DESIGN.md 4/C12, 3.6"),
 }
 
 def main():
